@@ -1,5 +1,6 @@
 """Layout rules of MPS/MPO arithmetic shared by C02.R4 and C03 (leg order vs. label order, block layout of sums)."""
 import ast
+import re
 
 from ..loader import norm, AnalysisError
 from .. import legs as lg
@@ -150,6 +151,17 @@ def merge_rules(chk, repo, rid):
     return n
 
 
+def strip_copies(e):
+    """X.copy(), np.array(X), np.array(X, copy=True) -> X (value-preserving wrappers)"""
+    while True:
+        if isinstance(e, ast.Call) and isinstance(e.func, ast.Attribute) and e.func.attr == 'copy' and not e.args:
+            e = e.func.value
+        elif isinstance(e, ast.Call) and norm(e.func) in ('np.array', 'np.copy', 'np.asarray') and len(e.args) == 1:
+            e = e.args[0]
+        else:
+            return e
+
+
 def _block_grid(node):
     """np.block argument -> 2-D grid of entries (a flat list is one row)"""
     if not isinstance(node, ast.List):
@@ -167,11 +179,12 @@ def sum_rules(chk, repo, rid):
         lax, rax = rank - 2, rank - 1           # left / right bond axes
         w = where(repo, fi, fi.node)
         # labels: concatenate((x0.qD[i], x1.qD[i])) for the inner bonds 1..L-1
-        cat = [s for s in ast.walk(fi.node) if isinstance(s, ast.Assign) and isinstance(s.value, ast.Call) and
-               norm(s.value.func) == 'np.concatenate']
+        cat = [s for s in ast.walk(fi.node) if isinstance(s, ast.Assign) and
+               isinstance(strip_copies(s.value), ast.Call) and norm(strip_copies(s.value).func) == 'np.concatenate']
         okc = False
         if len(cat) == 1:
-            b = pmatch(f'np.concatenate(({x0}.qD[__i], {x1}.qD[__i]))', cat[0].value)
+            b = pmatch(f'np.concatenate(({x0}.qD[__i], {x1}.qD[__i]))', strip_copies(cat[0].value)) or \
+                pmatch(f'np.concatenate([{x0}.qD[__i], {x1}.qD[__i]])', strip_copies(cat[0].value))
             lp = [l for l in ast.walk(fi.node) if isinstance(l, ast.For) and cat[0] in l.body]
             okc = b is not None and lp and norm(lp[0].iter) == 'range(1, L)' and norm(lp[0].target) == b['__i'] and \
                 norm(cat[0].targets[0]) == f'{res}.qD[{b["__i"]}]'
@@ -193,7 +206,28 @@ def sum_rules(chk, repo, rid):
             # second-to-last axis (left bond) - for site tensors these are exactly the two bond axes
             ok = True
             detail = []
-            idx = {'first': '0', 'last': '-1'}.get(pos)
+            ldefs = {}
+            if pos == 'inner':
+                lp_ = [l for l in ast.walk(fi.node) if isinstance(l, ast.For) and s in l.body]
+                for st_ in (lp_[0].body if lp_ else []):
+                    if isinstance(st_, ast.Assign) and isinstance(st_.targets[0], ast.Name):
+                        ldefs[st_.targets[0].id] = norm(st_.value)
+            fdefs = {norm(st_.targets[0]): norm(st_.value) for st_ in fi.node.body if isinstance(st_, ast.Assign) and
+                     isinstance(st_.targets[0], ast.Name)}
+
+            def dim_src(dtext):
+                """`name[k]` with name = X.A[i].shape -> (X, k); `d` -> ('phys',)"""
+                m_ = re.fullmatch(r'(\w+)\[(\d+)\]', dtext)
+                if m_ and m_.group(1) in ldefs:
+                    m2 = re.fullmatch(r'(\w+)\.A\[(.+)\]\.shape', ldefs[m_.group(1)])
+                    if m2:
+                        return (m2.group(1), int(m_.group(2)), m2.group(2))
+                m3 = re.fullmatch(r'(\w+)\.A\[(.+)\]\.shape\[(\d+)\]', dtext)
+                if m3:
+                    return (m3.group(1), int(m3.group(3)), m3.group(2))
+                if dtext in fdefs and fdefs[dtext] in (f'len({x0}.qd)', f'len({x1}.qd)'):
+                    return ('phys',)
+                return None
             for r, row in enumerate(grid):
                 for c_, e in enumerate(row):
                     txt = norm(e)
@@ -209,10 +243,9 @@ def sum_rules(chk, repo, rid):
                                 shp = e.args[0]
                                 dims = [norm(d) for d in shp.elts] if isinstance(shp, ast.Tuple) else []
                                 # rows (left bond) of operand r, columns (right bond) of operand c
-                                sr_ = ['s0', 's1'][r]
-                                sc_ = ['s0', 's1'][c_]
-                                good = len(dims) == rank and dims[lax] == f'{sr_}[{lax}]' and dims[rax] == f'{sc_}[{rax}]' \
-                                    and all(d == 'd' for d in dims[:lax])
+                                xr, xc = [x0, x1][r], [x0, x1][c_]
+                                good = len(dims) == rank and dim_src(dims[lax]) == (xr, lax, i) and \
+                                    dim_src(dims[rax]) == (xc, rax, i) and all(dim_src(d) == ('phys',) for d in dims[:lax])
                         ok = ok and good
                         detail.append(f'[{r}][{c_}] {txt[:40]}')
                     elif pos == 'first':
@@ -238,12 +271,9 @@ def sum_rules(chk, repo, rid):
         if inner is not None:
             lp = [l for l in ast.walk(fi.node) if isinstance(l, ast.For) and inner in l.body][0]
             i = norm(lp.target)
-            defs = {norm(s_.targets[0]): norm(s_.value) for s_ in lp.body if isinstance(s_, ast.Assign) and
-                    isinstance(s_.targets[0], ast.Name)}
-            ok = defs.get('s0') == f'{x0}.A[{i}].shape' and defs.get('s1') == f'{x1}.A[{i}].shape' and \
-                norm(lp.iter) == 'range(1, L - 1)' and norm(inner.targets[0]) == f'{res}.A[{i}]'
-            chk.ob(rid, where(repo, fi, lp), f'{fi.name}: block shapes are taken from the operands at the same site, for sites '
-                   f'1..L-2', ok, f'{defs}; range {norm(lp.iter)}', key=f'{rid}|{q}|block|shapes')
+            ok = norm(lp.iter) == 'range(1, L - 1)' and norm(inner.targets[0]) == f'{res}.A[{i}]'
+            defs = {}
+            chk.ob(rid, where(repo, fi, lp), f'{fi.name}: inner tensors are assembled for sites 1..L-2', ok, f'range {norm(lp.iter)}', key=f'{rid}|{q}|block|shapes')
             n += 1
         # alpha exactly once per chain
         alpha_uses = [x for x in ast.walk(fi.node) if isinstance(x, ast.Name) and x.id == 'alpha' and isinstance(x.ctx, ast.Load)]
